@@ -15,6 +15,8 @@ from . import C05, common, gradcase, viewprog as vp
 
 PROP = "C13"
 
+# statements that fail whatever the program looks like: if they are ACCEPTED that is a finding in itself
+MUST_FAIL = {"shape-assign-needs-copy", "shape-assign-needs-copy-view", "scalar-overflow", "int-forced-variable"}
 FAILING = [
     ("binary-shape", "{s} + BAD7"),
     ("bad-axis", "mg.sum({s}, axis=5)"),
@@ -39,6 +41,9 @@ FAILING = [
     ("scalar-overflow", "IT8 + 300"),
     ("scalar-overflow-view", "IT8[:2] * 1000"),
     # functions evaluated in two steps of which only the second fails
+    # NumPy refuses to assign a shape that would need a copy (non-contiguous memory): MyGrad must refuse as well, and change nothing
+    ("shape-assign-needs-copy", "NC.shape = (6,)"),
+    ("shape-assign-needs-copy-view", "NCV.shape = (6,)"),
     ("clip-bad-upper-bound", "mg.clip({s}, c1, BAD7)"),
     ("clip-bad-upper-bound-out", "mg.clip({s}, c1, BAD7, out={s})"),
 ]
@@ -134,6 +139,9 @@ def run_item(mg, base, prog, pos, fname, res, ro=False):
         T["RO"] = mg.Tensor(ro_arr, copy=False, constant=False)
         T["IT"] = mg.Tensor(np.array([1, 2, 3]))
         T["IT8"] = mg.Tensor(np.array([1, 2, 3], dtype=np.uint8))
+        T["NC"] = mg.Tensor(np.arange(6.0).reshape(2, 3).T)  # owner of non-C-ordered memory, shape (3, 2)
+        T["NCB"] = mg.Tensor(np.arange(6.0).reshape(2, 3))
+        T["NCV"] = T["NCB"].T  # non-contiguous view
         raised = None
         snap_after = None
         for i, ln in enumerate(prog):
@@ -157,6 +165,7 @@ def run_item(mg, base, prog, pos, fname, res, ro=False):
                  if n in T and isinstance(T[n], mg.Tensor)}
         final = snapshot(T, mg)
         ro_ok = (not T["RO"].data.flags.writeable) and bool(T["IT"].data.flags.writeable) and bool(T["IT8"].data.flags.writeable)
+        ro_ok = ro_ok and T["NC"].shape == (3, 2) and T["NCV"].shape == (3, 2) and T["NCV"].base is T["NCB"] and bool(np.shares_memory(T["NCV"].data, T["NCB"].data))
         return dict(raised=raised, snap=snap_after, Lterms=Lterms, grads=grads, final=final, ro_ok=ro_ok)
 
     def body():
@@ -171,6 +180,8 @@ def run_item(mg, base, prog, pos, fname, res, ro=False):
             return "harness", "%s: %s" % (type(p.exc).__name__, p.exc)
         a, b = p.out
         if a["raised"] is None or a["raised"] is False:
+            if fname in MUST_FAIL and a["raised"] is False:
+                return "state", "the statement `%s` was accepted although NumPy rejects the same statement" % ftpl
             res["not_failing"] = res.get("not_failing", 0) + 1
             return None  # the inserted statement did not fail for this target: nothing to check
         for key in ("snap", "final"):
@@ -216,7 +227,7 @@ def tgt(line):
     h = line.split("=")[0].strip()
     for s in ("[", ".", " "): h = h.split(s)[0]
     return h
-PROG = %r; POS = %d; FTPL = %r; NAMES_AT = %r; RO_BASE = %r
+PROG = %r; POS = %d; FTPL = %r; NAMES_AT = %r; RO_BASE = %r; MUST_FAIL = %r
 TN = ("t", "v", "w", "u", "y0", "yv", "y2")
 def snap(T):
     live = [n for n in TN if n in T and isinstance(T[n], mg.Tensor)]
@@ -237,6 +248,7 @@ def run(fail):
     ro = np.array([1.0, 2.0]); ro.flags.writeable = False
     T["RO"] = mg.Tensor(ro, copy=False)
     T["IT"] = mg.Tensor(np.array([1, 2, 3])); T["IT8"] = mg.Tensor(np.array([1, 2, 3], dtype=np.uint8))
+    T["NC"] = mg.Tensor(np.arange(6.0).reshape(2, 3).T); T["NCB"] = mg.Tensor(np.arange(6.0).reshape(2, 3)); T["NCV"] = T["NCB"].T
     raised = []; s1 = None
     for i, ln in enumerate(PROG):
         if i == POS:
@@ -250,12 +262,13 @@ def run(fail):
         exec(ln, T)
     T["L"].backward()
     g = {n: (None if T[n].grad is None else T[n].grad.tolist()) for n in TN if n in T and isinstance(T[n], mg.Tensor)}
-    return raised, s1, snap(T), float(np.sum(T["L"].data)), g, T["RO"].data.flags.writeable or not T["IT"].data.flags.writeable or not T["IT8"].data.flags.writeable
+    return raised, s1, snap(T), float(np.sum(T["L"].data)), g, T["RO"].data.flags.writeable or not T["IT"].data.flags.writeable or not T["IT8"].data.flags.writeable or T["NC"].shape != (3, 2) or T["NCV"].shape != (3, 2) or not np.shares_memory(T["NCV"].data, T["NCB"].data)
 ra, a1, a2, La, ga, roa = run(True)
 for k_ in list(lm._array_counter): pass
 lm._array_counter.clear(); lm._array_tracker.clear(); lm._views_waiting_for_unlock.clear()
 rb, b1, b2, Lb, gb, rob = run(False)
 bad = []
+if not ra and MUST_FAIL: bad.append("the failing statement was accepted")
 if ra:
     if a1 != b1: bad.append(("state right after the failure", [n for n in a1 if a1[n] != b1.get(n)]))
     if a2 != b2: bad.append(("final state", [n for n in a2 if a2[n] != b2.get(n)]))
@@ -263,7 +276,7 @@ if ra:
     if roa: bad.append("read-only array became writeable / integer operand of the failed call still locked")
 print("raised:", ra); print(bad)
 print('REPRODUCED' if bad else 'NOT-REPRODUCED'); sys.exit(1 if bad else 0)
-''' % (list(prog), pos, dict(FAILING + RO_FAILING)[fname], live_names(prog, pos), bool(ro), shape, shape[-1])
+''' % (list(prog), pos, dict(FAILING + RO_FAILING)[fname], live_names(prog, pos), bool(ro), fname in MUST_FAIL, shape, shape[-1])
 
 
 def run_case(spec, tier):
